@@ -312,6 +312,9 @@ class RandInfoBuilder(ModelVisitor,RandIF):
                     for c in self._active_randset.constraints():
                         ex_randset.add_constraint(c)
                         
+                    for c in self._active_randset.soft_constraints():
+                        ex_randset.add_constraint(c)
+                        
                     self._merge_dist_fields(ex_randset, self._active_randset)
 
                     # Remove the previous randset
